@@ -70,6 +70,7 @@ class PState:
         self.consumed = False
         self.err = False        # this path recorded an error itself
         self.ok_dead = False    # no error-free execution reaches here
+        self.ccount = 0         # number of token-consuming calls so far on this path (validity of look-ahead aliases)
 
     def copy(self):
         s = PState()
@@ -77,6 +78,7 @@ class PState:
         s.la = None if self.la is None else set(self.la)
         s.entry_la = None if self.entry_la is None else set(self.entry_la)
         s.consumed, s.err, s.ok_dead = self.consumed, self.err, self.ok_dead
+        s.ccount = self.ccount
         return s
 
 
@@ -222,6 +224,11 @@ class ParserShapes:
                         continue
                     for q2, val in self.eval(v['init'], q, ctx):
                         q2.env[v['d']] = val
+                        init = strip_casts(v['init'])
+                        if self.is_lookahead_call(init):
+                            q2.env[v['d']] = ('la_alias', q2.ccount)
+                        elif (v.get('cty') or '').replace('const ', '') == 'bool' and self.la_cond(init, q2) is not None:
+                            q2.env[v['d']] = ('la_bool', init, q2.ccount)
                         nxt.append(q2)
                 cur = nxt
             return [(q, 'next', None) for q in cur]
@@ -320,7 +327,8 @@ class ParserShapes:
     def exec_switch(self, s, st, ctx):
         res = []
         c = strip_casts(s['c'])
-        on_la = self.is_lookahead_call(c)
+        on_la = self.is_lookahead_call(c) or (c.get('k') == 'ref' and isinstance(st.env.get(c.get('d')), tuple) and st.env[c['d']][0] == 'la_alias'
+                                               and st.env[c['d']][1] == st.ccount)
         on_type = self.type_switch_subject(c)
         labels_all = []
         for case in s['cases']:
@@ -397,25 +405,37 @@ class ParserShapes:
     def refine_type(self, q, ptr_expr, sel, ctx):
         return q
 
-    def la_cond(self, e):
-        """condition -> (tokens when true, tokens when false) or None when unrelated to the look-ahead"""
+    def la_cond(self, e, st=None):
+        """condition -> (tokens when true, tokens when false) or None when unrelated to the look-ahead.
+        With a state, locals that hold the look-ahead (or a test of it) are looked through while still valid."""
         e = strip_casts(e)
         if e is None:
             return None
         k = e.get('k')
+
+        def is_la(x):
+            if self.is_lookahead_call(x):
+                return True
+            if st is not None and x.get('k') == 'ref' and isinstance(st.env.get(x.get('d')), tuple) and st.env[x['d']][0] == 'la_alias':
+                return st.env[x['d']][1] == st.ccount
+            return False
+        if k == 'ref' and st is not None and isinstance(st.env.get(e.get('d')), tuple) and st.env[e['d']][0] == 'la_bool':
+            if st.env[e['d']][2] == st.ccount:
+                return self.la_cond(st.env[e['d']][1], st)
+            return None
         if k == 'bin' and e['op'] in ('==', '!='):
             l, r = strip_casts(e['l']), strip_casts(e['r'])
             tok = None
-            if self.is_lookahead_call(l) and r.get('k') == 'ref' and r.get('dk') == 'enumerator':
+            if is_la(l) and r.get('k') == 'ref' and r.get('dk') == 'enumerator':
                 tok = r['name']
-            elif self.is_lookahead_call(r) and l.get('k') == 'ref' and l.get('dk') == 'enumerator':
+            elif is_la(r) and l.get('k') == 'ref' and l.get('dk') == 'enumerator':
                 tok = l['name']
             if tok is None:
                 return None
             t, f = {tok}, self.ALL - {tok}
             return (t, f) if e['op'] == '==' else (f, t)
         if k == 'bin' and e['op'] in ('&&', '||'):
-            a, b = self.la_cond(e['l']), self.la_cond(e['r'])
+            a, b = self.la_cond(e['l'], st), self.la_cond(e['r'], st)
             if a is None and b is None:
                 return None
             a = a or (self.ALL, self.ALL)
@@ -424,12 +444,12 @@ class ParserShapes:
                 return (a[0] & b[0], a[1] | b[1])
             return (a[0] | b[0], a[1] & b[1])
         if k == 'un' and e['op'] == '!':
-            a = self.la_cond(e['e'])
+            a = self.la_cond(e['e'], st)
             return None if a is None else (a[1], a[0])
         return None
 
     def assume(self, q, cond, pol, ctx):
-        lc = self.la_cond(cond)
+        lc = self.la_cond(cond, q)
         if lc is not None:
             # only sound while nothing was consumed since the look-ahead was read: lookahead() reads the
             # current token, so the refinement applies to the current la
@@ -698,6 +718,7 @@ class ParserShapes:
                     q.ok_dead = True
                 q.la = None
                 q.consumed = True
+                q.ccount += 1
                 val = V(va, vo) if sm['returns_node'] else None
                 if sm['returns_node'] and not va:
                     val = V({'BOTTOM'}, set())      # not yet known (fixpoint in progress)
@@ -734,9 +755,10 @@ class ParserShapes:
         consumes = f.get('rec') == 'ParseState' and f['name'] in ('match', 'matchmk')
         for s, flow, rv in outs:
             s.env = dict(saved)
-            if consumes or f['name'] in ('match', 'matchmk'):
+            if consumes or f['name'] in ('match', 'matchmk') or f.get('rec') == 'ParseState':
                 s.la = None
                 s.consumed = True
+                s.ccount += 1
             res.append((s, rv if isinstance(rv, V) else (V({'UNK'}, {'UNK'}) if is_node_ptr(call) else None)))
         # in the ok world a match() never takes its error branch: drop the states that recorded the error
         # when an error-free sibling exists (they only differ in err)
@@ -1018,8 +1040,14 @@ class GenShapes:
                 vec = strip_casts(a['obj'])
                 if vec.get('k') != 'ref':
                     continue
-                fills = [e for e in walk_all_exprs(f['body']) if e.get('k') == 'call' and e.get('callee_in_repo') and
-                         any(strip_casts(x).get('k') == 'ref' and strip_casts(x).get('d') == vec['d'] for x in e['args'])]
+                fills = []
+                for e in walk_all_exprs(f['body']):
+                    if e.get('k') == 'call' and e.get('callee_in_repo'):
+                        for i, x in enumerate(e['args']):
+                            if strip_casts(x).get('k') == 'ref' and strip_casts(x).get('d') == vec['d']:
+                                pt = (e.get('pty') or [''] * (i + 1))[i] if i < len(e.get('pty') or []) else ''
+                                if pt.rstrip().endswith('&') and not pt.lstrip().startswith('const '):
+                                    fills.append(e)
                 pushes = [e for e in walk_all_exprs(f['body']) if e.get('k') == 'call' and (e.get('callee') or '').endswith('::push_back') and
                           e.get('obj') is not None and strip_casts(e['obj']).get('d') == vec['d']]
                 fresh = any(st['k'] == 'decl' and any(v['d'] == vec['d'] and (v.get('init') is None or strip_casts(v['init']).get('k') == 'construct' and not strip_casts(v['init'])['args'])
